@@ -13,5 +13,8 @@ def run(prop, tier, replay):
         if replay:
             return p_e3.replay(prop, replay)
         return {"C13": p_e3.check_c13, "C14": p_e3.check_c14, "C15": p_e3.check_c15}[prop](tier)
+    if prop == "C18":
+        import p_c18
+        return p_c18.replay(replay) if replay else p_c18.check(tier)
     sys.stderr.write("no check implemented for %s\n" % prop)
     return 2
